@@ -970,7 +970,7 @@ func expandScopeHorizons(ns walletdb.ReadWriteBucket,
 		keyPath := externalKeyPath(childIndex)
 		addr, err := scopedMgr.DeriveFromKeyPath(ns, keyPath)
 		switch {
-		case err == hdkeychain.ErrInvalidChild:
+		case errors.Is(err, hdkeychain.ErrInvalidChild):
 			// Record the existence of an invalid child with the
 			// external branch's recovery state. This also
 			// increments the branch's horizon so that it accounts
@@ -1000,7 +1000,7 @@ func expandScopeHorizons(ns walletdb.ReadWriteBucket,
 		keyPath := internalKeyPath(childIndex)
 		addr, err := scopedMgr.DeriveFromKeyPath(ns, keyPath)
 		switch {
-		case err == hdkeychain.ErrInvalidChild:
+		case errors.Is(err, hdkeychain.ErrInvalidChild):
 			// Record the existence of an invalid child with the
 			// internal branch's recovery state. This also
 			// increments the branch's horizon so that it accounts
